@@ -1,6 +1,6 @@
 (* C09 — cohort planner sound: labels partitioned, blocks covered, members counted once. *)
 From Coq Require Import ZArith String List Bool Permutation.
-From Flox Require Import Factorize Rechunk Cohorts CohortsLaw CohortsMerge NormIdx NormIdxLaw.
+From Flox Require Import Factorize Rechunk Cohorts CohortsLaw CohortsMerge NormIdx NormIdxLaw NdShape NdShapeLaw NdTake NdTakeLaw.
 Import ListNotations.
 Open Scope Z_scope.
 
@@ -45,7 +45,19 @@ Theorem C09_block_selection_exact :
     select (normalize_axis idx n) n = zsort (zuniq idx).
 Proof. exact normalize_axis_selects. Qed.
 
+(* the graph wiring of a cohort (subset_to_blocks): the block-key array is indexed ONE AXIS AT A TIME with the blocks selected on
+   that axis (batch axes: all of them), so the output block at position (p0, p1, ...) reads the input block
+   (sel0[p0], sel1[p1], ...) - for block grids of any number of axes, any selection (contiguous or not) on any axes;
+   K2 compares NdTake.subset_sources with the layer really built, position by position (this is what defect a2bf6d7 broke) *)
+Theorem C09_cohort_subset_wiring :
+  forall blk sels pos,
+    sels_ok sels blk -> in_range (map (@length nat) sels) pos ->
+    get nat 0%nat (subset_sources blk sels) pos = ravel blk (pick sels pos)
+    /\ shape (subset_sources blk sels) = map (@length nat) sels.
+Proof. exact subset_wiring. Qed.
+
 Print Assumptions C09_incidence_exact.
+Print Assumptions C09_cohort_subset_wiring.
 Print Assumptions C09_block_selection_exact.
 Print Assumptions C09_exact_cohorts_sound.
 Print Assumptions C09_planner_partitions_and_covers.
